@@ -3,12 +3,14 @@ package c14
 import (
 	"fmt"
 	"math"
+	"strconv"
 	"testing"
 	"time"
 
 	"pgregory.net/rapid"
 
 	"github.com/form3tech-oss/f1/v2/internal/trigger/gaussian"
+	"github.com/form3tech-oss/f1/v2/verifharness/vlib"
 )
 
 // "Accepted rate strings mean what they spell: N/<duration> is N per that duration" - also where a
@@ -50,6 +52,28 @@ func TestProp_PeakRateSpellings(t *testing.T) {
 		tol := 1 + 1e-9*math.Max(va, vb)
 		if math.Abs(va-vb) > tol {
 			rt.Fatalf("VERIF-VIOLATION C14: peak rates %q and %q spell the same rate but give the volumes %v and %v (peak %s, stddev %s)", a, b, va, vb, peak, stddev)
+		}
+		// through the CLI's builder the peak rate must actually drive the profile: `--peak-rate R` is the
+		// same trigger as `--volume CalculateVolume(R, peak, stddev)` (the volume flag is ignored then)
+		common := map[string]string{"repeat": "24h0m0s", "iteration-frequency": "1m0s", "peak": peak.String(), "standard-deviation": stddev.String(), "distribution": "none"}
+		withPeak := map[string]string{"peak-rate": a, "volume": "7"}
+		withVolume := map[string]string{"volume": strconv.FormatFloat(va, 'f', -1, 64)}
+		for k, v := range common {
+			withPeak[k], withVolume[k] = v, v
+		}
+		tp, errp := vlib.BuildTrigger(&vlib.RunSpec{Mode: "gaussian", Flags: withPeak})
+		tv, errv := vlib.BuildTrigger(&vlib.RunSpec{Mode: "gaussian", Flags: withVolume})
+		if (errp == nil) != (errv == nil) {
+			rt.Fatalf("VERIF-VIOLATION C14: run gaussian --peak-rate %s and --volume %v (the volume that peak rate stands for) are not accepted alike: %v / %v", a, va, errp, errv)
+		}
+		if errp == nil {
+			day := time.Date(2024, 5, 17, 0, 0, 0, 0, time.UTC)
+			for i := 0; i < 12; i++ {
+				at := day.Add(peak - 6*30*time.Minute + time.Duration(i)*30*time.Minute)
+				if x, y := tp.DryRun(at), tv.DryRun(at); x != y {
+					rt.Fatalf("VERIF-VIOLATION C14: run gaussian --peak-rate %s requests %d at %s, --volume %v (what that peak rate stands for) requests %d (peak %s, stddev %s)", a, x, at.Format("15:04"), va, y, peak, stddev)
+				}
+			}
 		}
 		if math.Abs(vd-2*va) > 2+1e-9*vd {
 			rt.Fatalf("VERIF-VIOLATION C14: peak rate %q gives the volume %v, twice that rate (%q) gives %v (peak %s, stddev %s)", a, va, d, vd, peak, stddev)
